@@ -62,6 +62,8 @@ def defaults_in(schema_doc):
 
 
 INTRINSIC = [None, [], {}, False, 0, 0.0, ""]
+# values of Rust's Default for the types typify emits (what an absent member of a rendered default is filled with)
+RUST_ZERO = INTRINSIC + ["1970-01-01T00:00:00Z", "1970-01-01", "00000000-0000-0000-0000-000000000000"]
 
 
 def added_members(v, w, path=()):
@@ -101,12 +103,41 @@ def strip_nulls(x, names):
     return x
 
 
+def null_positions(x, names, path=()):
+    if isinstance(x, dict):
+        for k, y in x.items():
+            if y is None and k in names:
+                yield path + (k,)
+            else:
+                yield from null_positions(y, names, path + (k,))
+    elif isinstance(x, list):
+        for i, y in enumerate(x):
+            yield from null_positions(y, names, path + (i,))
+
+
+def without(x, drop, path=()):
+    if isinstance(x, dict):
+        return {k: without(y, drop, path + (k,)) for k, y in x.items() if path + (k,) not in drop}
+    if isinstance(x, list):
+        return [without(y, drop, path + (i,)) for i, y in enumerate(x)]
+    return x
+
+
 def valid_without_nulls(orc, w, dname, names):
-    """Is w valid once the nulls written for Box<Option<T>> members are removed?"""
-    try:
-        return orc.valid(strip_nulls(w, names), dname)
-    except Exception:
+    """Is w valid once nulls written for Box<Option<T>> members are removed? The members are known by wire name only,
+    and the same name may elsewhere be a required nullable member whose null must stay: all of them are removed first,
+    then up to two are put back."""
+    pos = list(null_positions(w, names))
+    if not pos or len(pos) > 14:
         return False
+    keep_sets = [()] + [(p,) for p in pos] + [(p, q) for i, p in enumerate(pos) for q in pos[i + 1:]]
+    for keep in keep_sets:
+        try:
+            if orc.valid(without(w, set(pos) - set(keep)), dname):
+                return True
+        except Exception:
+            return False
+    return False
 
 
 def run(tier, seed, replay=None):
@@ -170,7 +201,14 @@ def run(tier, seed, replay=None):
         allowed = INTRINSIC + defaults_in(meta["doc"])
         bad_add = [(p, x) for p, x in added_members(v, w) if not filled_from(x, allowed)]
         if bad_add:
-            rep.violation("member_invented", "-", dict(base, w=out["w"], added=[[list(p), x] for p, x in bad_add[:3]]), **kw)
+            # KF-C03-3 / KF-C06-2: the added member is a schema default whose own absent members were filled with Rust's
+            # Default (epoch, nil uuid, ...) instead of the defaults those members declare
+            def rust_filled(x):
+                return any(type(a) is type(x) and isinstance(a, (dict, list)) and a and contained(a, x) is None and
+                           all(y in RUST_ZERO for _, y in added_members(a, x)) for a in defaults_in(meta["doc"]))
+            cause = "nested_declared_default_replaced_by_rust_default" if all(rust_filled(x) for _, x in bad_add) else None
+            rep.violation("member_invented", "-", dict(base, w=out["w"], added=[[list(p), x] for p, x in bad_add[:3]], cause=cause),
+                          cause=cause, **kw)
             continue
         if out.get("w2_err") or out.get("w2_same") is False:
             rep.violation("not_idempotent", common.site_of(out.get("w2_err") or "w2 != w"),
